@@ -1,9 +1,11 @@
 """C03: WKB/EWKB emit the standard byte layout and decode back to the same geometry."""
 import vlib
 
+MEM = 6 << 30      # address-space limit of the driver: an encoder's garbage, decoded again, must not take the machine down
+
 
 def pipe(ctx, verdict, cases, name="wkbenc"):
-    obs = vlib.run_driver(ctx, "wkbenc", cases)
+    obs = vlib.run_driver(ctx, "wkbenc", cases, mem=MEM)
     viols = vlib.model_b(ctx, "WKBObs", "Obs.cfg", obs, name="WKBObs")
     for idx, v in viols:
         verdict.add(name, v["sig"], cases[idx], dict(flavor=v["flavor"], t=v["t"]))
@@ -21,4 +23,12 @@ def run(ctx, verdict):
     pipe(ctx, verdict, cases)
     ctx.assumptions += ["SRIDs from a palette {none, 1, 4326, 2^31, 2^32-1}; ordinates from a palette of float64 bit "
                         "patterns incl. non-canonical NaNs; reader schedules: chunk sizes 1/2/3/7/mixed/as-asked, "
-                        "data-with-EOF, zero-length deliveries; writer failing at every byte position"]
+                        "data-with-EOF, zero-length deliveries; writer failing at every byte position",
+                        "geometries without an encoding (Layout(5), Layout(6), non-collections without layout): no encoder may "
+                        "panic, each must refuse or hand out bytes that decode back to the geometry (WKBObs!Refused)",
+                        "SRIDs on MEMBERS of a collection (EWKB): the formats put the SRID on the outermost geometry only, so what "
+                        "becomes of a member's own SRID is left open (compared with member SRIDs stripped, WKB!StripM); the "
+                        "outermost SRID must round-trip and all variants must agree with Marshal",
+                        "SQL wrappers: Scan of the NDR and the XDR encoding, Value() after Scan and of a directly populated wrapper; "
+                        "Scan(nil), Scan(string), Scan(int64): no panic, refused or NULL (or a well-formed geometry)",
+                        "every geometry handed out by Read / hex Decode / Scan is structurally well formed (FlatGeom!WellFormedObj)"]
